@@ -19,6 +19,6 @@ def run(tier, seed):
                  ["commonmark", "cm-fragjoin"], "all concatenations of <= k pieces over {*, **, _, ~~, ~, a, space, [, ](x), b}", "delimiter universe")
     rep.explanation = ("Mixed. Frame back end: every write site in renderer.py/token.py/tree.py targets per-call objects (FRAME obligations), i.e. the renderer writes nothing but "
                        "token-local state. Bounded: the round-trip and repeatability relations on parser output over the line and inline universes (structural inductions over the token list are not attempted deductively).")
-    rep.trusted_base = STD_TRUST
-    rep.assumptions = ["dataclasses.fields/replace reflect the declared fields (assumed contract on the dependency)"]
+    rep.trusted_base += STD_TRUST
+    rep.assumptions += ["dataclasses.fields/replace reflect the declared fields (assumed contract on the dependency)"]
     return rep
